@@ -179,14 +179,14 @@ def expr_of(facts, body, operand, depth=0, memo=None):
     return expr_of_place(facts, body, operand['p'], depth, memo)
 
 
-def _proj_key(proj):
+def _proj_key(proj, resolve=None):
     out = []
     for e in proj:
         k = e['p']
         if k == 'deref': continue
         if k == 'field': out.append(e['i'])
         elif k == 'downcast': out.append(('as', e['v']))
-        elif k == 'index': out.append(('idx', e['l']))
+        elif k == 'index': out.append(('idx', resolve(e['l']) if resolve else e['l']))
         elif k == 'cindex': out.append(('cidx', e['off'], e['end']))
         else: out.append((k,))
     return tuple(out)
@@ -200,6 +200,9 @@ def expr_of_place(facts, body, p, depth=0, memo=None):
     while o[0] == 'ref':
         o = o[1]; refs += 1
     k = o[0]
+    _pk = globals()['_proj_key']
+    def _proj_key(proj, _pk=_pk):
+        return _pk(proj, lambda l: expr_of_place(facts, body, {'l': l, 'proj': []}, depth + 1, memo))
     if k == 'param':
         return ('param', o[1], _proj_key(o[2]))
     if k == 'multi':
@@ -293,7 +296,8 @@ def expr_str(e, names=None):
 
 def _fs(x):
     if isinstance(x, tuple) and x and x[0] == 'as': return 'as%d' % x[1]
-    if isinstance(x, tuple) and x and x[0] == 'idx': return '[]'
+    if isinstance(x, tuple) and x and x[0] == 'idx':
+        return '[%s]' % (expr_str(x[1]) if isinstance(x[1], tuple) else '_')
     if isinstance(x, tuple): return '[%s]' % ','.join(map(str, x[1:]))
     return str(x)
 
